@@ -46,6 +46,10 @@ def build_and_run(driver, defines, copy, work, tag, timeout=120):
 def search(prop, violations, work):
     for v in violations:
         fam = family(v['unit'])
+        if prop in ('C15', 'C16') and re.search(r'^(structure|control)\.', v['unit']):
+            fam = fam_inject_log
+        if prop == 'C12' and re.search(r'^c13\.', v['unit']):
+            fam = fam_serial_then_stream
         if fam is None:
             continue
         v = dict(v, prop=prop)
@@ -116,7 +120,23 @@ def fam_memory(v):
     return 'memory_model.cpp', [[]]
 
 
-FAMILIES = [(r'^c17\.', fam_memory), (r'^(root|structure|control)\.', fam_machine), (r'^c20\.bitarray\.', fam_bitarray), (r'^c13\.', fam_bitstream), (r'^c20\.(dynamic|static)\.', fam_dynarray)]
+def fam_plan(v):
+    return 'plan_model.cpp', [['CAP=%d' % c] for c in _caps(v, ['TaskListT__NCapacity'], [4, 1, 2, 7])]
+
+
+def fam_serial(v):
+    return 'serial_model.cpp', [[]]
+
+
+def fam_serial_then_stream(v):
+    return 'serial_model.cpp', [[]]
+
+
+def fam_inject_log(v):
+    return 'inject_log_model.cpp', [[], ['PEER', 'VERBOSE'], ['VERBOSE']]
+
+
+FAMILIES = [(r'^c17\.', fam_memory), (r'^serial\.', fam_serial), (r'^structure\.(S_inj|S_empty)\.', fam_inject_log), (r'^(c10|plans)\.', fam_plan), (r'^(root|structure|control)\.', fam_machine), (r'^c20\.bitarray\.', fam_bitarray), (r'^c13\.', fam_bitstream), (r'^c20\.(dynamic|static)\.', fam_dynarray)]
 
 
 def family(unit):
